@@ -46,20 +46,21 @@ theorem ex_pending_5000 : PendingAt exView 5000 := by
   rw [pendingAt_iff_B]; decide
 
 
-/-! ## why the node addresses of one proxy must be distinct (finding F02a)
+/-! ## why the node addresses of one proxy must be distinct (finding F02a, fixed in /repo bf43b2d)
 
-`add_proxy` accepts a proxy whose two node addresses are equal.  After a failover that makes such a
-proxy host both masters of its chunk (role position `first`), `generate_proxy_meta_cmd_args` puts
-both masters under the same `HashMap` key: the second `insert` overwrites the first, the slot
-ranges of the first master never reach the proxy, and nobody covers them. -/
+Before the fix `add_proxy` accepted a proxy whose two node addresses are equal.  After a failover
+that makes such a proxy host both masters of its chunk (role position `first`),
+`generate_proxy_meta_cmd_args` puts both masters under the same `HashMap` key: the second `insert`
+overwrites the first, the slot ranges of the first master never reach the proxy, and nobody covers
+them.  `dupCluster` is that store, built by hand (it is no longer reachable). -/
 
 def dupChunk : Chunk :=
   { role := .first, stable0 := some [(0, 8191)], stable1 := some [(8192, 16383)], mig0 := [], mig1 := []
     proxy0 := "p1:1", proxy1 := "p2:1", host0 := "p1", host1 := "p2"
     node0 := "n:1", node1 := "n:1", node2 := "p2:11", node3 := "p2:12" }
 
-/-- the cluster stored after `add_proxy p1:1 n:1 n:1`, `add_proxy p2:1 …`, `add_proxy p3:1 …`,
-`add_cluster c 4` (chunk `p1:1, p3:1`), `failover p3:1` (replacement `p2:1`) -/
+/-- the cluster the unfixed broker stored after `add_proxy p1:1 n:1 n:1`, `add_proxy p2:1 …`,
+`add_proxy p3:1 …`, `add_cluster c 4` (chunk `p1:1, p3:1`), `failover p3:1` (replacement `p2:1`) -/
 def dupCluster : Cluster :=
   { epoch := 6, name := "c", chunks := [dupChunk]
     config := { strategy := 0, maxMigrationTime := 10800, maxBlockingTime := 10000, scanInterval := 500, scanCount := 16 } }
